@@ -343,5 +343,5 @@ func TestVerif_C19(t *testing.T) {
 		"spec bases are names the harness created (branches, tags) or full hashes of graph commits; HEAD is resolved against an explicit current branch")
 	defer recPairs.Write(t)
 	defer recSpecs.Write(t)
-	vh.Check(t, "graph", 500, 120, func(rt *rapid.T) { c19DoltdbCase(rt, recPairs, recSpecs) })
+	vh.Check(t, "graph", 500, 80, func(rt *rapid.T) { c19DoltdbCase(rt, recPairs, recSpecs) })
 }
